@@ -1096,6 +1096,11 @@ class ExprToAccessC(ExprReducer):
                 nobj = CGenArray(subcgenobj, 0,
                                  void_type.align,
                                  void_type.size)
+                while isinstance(nobj.ctype, ObjCArray):
+                    # Multidimensional array: go down to the first element
+                    nobj = CGenArray(nobj, 0,
+                                     void_type.align,
+                                     void_type.size)
                 target = nobj.ctype.objtype
                 for finalcgenobj in self.cgen_access(nobj, target, 0, True, lvl):
                     assert isinstance(finalcgenobj.ctype, ObjCPtr)
